@@ -14,6 +14,12 @@ implementation vs model      -> ctx.compare   (the theorems no longer speak abou
 Stream `lib-through-machine`: the same histories as script text, parsed and executed by the implementation and by the Lean jump
 MACHINE whose library is that model (`BareModel/HostLib.lean`, second driver `drv_hostlib`, op "exec" on the parsed statement
 list with the initial pool and its aliasing) - the tie for the machine-level theorems of `BareProofs/HostLibBridge.lean`.
+
+Call-backs (added after seeding round 4): the pool holds script-defined functions (MATCHERS, defined by the implementation's own
+parser/runtime) and host functions whose results range over every value class; the reference gives the match-function form of
+arrayIndexOf / arrayLastIndexOf its contract (match_pred: the returned value read with the language's truth rules) - stream
+`callbacks` (every function x every element class, exhaustive, + random arrays) and ~30% of the searches of the `lib` stream.
+Stream `sort`: arraySort (outside the Lean model) against the sequence contract of a sort, with and without compare call-backs.
 """
 
 import copy
@@ -77,9 +83,122 @@ def _fn1(unused_args, unused_options):
     return None
 
 
-FNS = [_fn0, _fn1]
 REGEXES = [re.compile('a'), re.compile('b+')]
 REGEX_TYPE = type(REGEXES[0])
+DT2020 = datetime.datetime(2020, 1, 1, tzinfo=datetime.timezone.utc)
+
+
+# ---------------------------------------------------------------------------------------------------------------------
+# Function values of the pool: call-backs handed to the library (match function of arrayIndexOf / arrayLastIndexOf, compare
+# function of arraySort).  `{"f": i}` in protocol form:  i = 0, 1 the two opaque host functions above (they return null);
+# 2 .. 2+len(MATCHERS)-1 the SCRIPT-DEFINED functions of MATCHERS (defined by the implementation's own parser/runtime from
+# MATCHER_PRELUDE, i.e. what a script author writes); then one HOST twin per matcher (a Python callable of the embedding
+# application that returns the reference result) and HOST_ONLY (results a script cannot spell: host ints, function/regex values).
+# Every entry carries its reference semantics  element -> returned value  written from the function text; what the LIBRARY
+# does with the returned value (judge it with the language's truth rules) is the thing under test.  The results range over
+# every value class: null, false/true, 0/non-zero/fractional/negative numbers, ''/non-empty strings, []/non-empty arrays,
+# {}/non-empty objects, datetime, function, regex - for constant functions and for functions of the element.
+# ---------------------------------------------------------------------------------------------------------------------
+
+def _is_num(x):
+    return isinstance(x, (int, float)) and not isinstance(x, bool)
+
+
+def _truthy(x):
+    """The truth rules of the language (documentation of `if` / systemBoolean): null, false, 0, '' and [] are false - all else true."""
+    if x is None:
+        return False
+    if isinstance(x, bool):
+        return x
+    if _is_num(x):
+        return x != 0
+    if isinstance(x, (str, list)):
+        return len(x) > 0
+    return True
+
+
+# (name, parameter list text, body lines, reference  element -> value)
+MATCHERS = [
+    ('mNoReturn', 'x', ['y = x'], lambda x: None),
+    ('mId', 'x', ['return x'], lambda x: x),
+    ('mNot', 'x', ['return !x'], lambda x: not _truthy(x)),
+    ('mNull', 'x', ['return null'], lambda x: None),
+    ('mFalse', 'x', ['return false'], lambda x: False),
+    ('mTrue', 'x', ['return true'], lambda x: True),
+    ('mZero', 'x', ['return 0'], lambda x: 0.0),
+    ('mOne', 'x', ['return 1'], lambda x: 1.0),
+    ('mHalf', 'x', ['return 0.5'], lambda x: 0.5),
+    ('mNeg', 'x', ['return 0 - 1'], lambda x: -1.0),
+    ('mEmptyStr', 'x', ["return ''"], lambda x: ''),
+    ('mStr', 'x', ["return 'false'"], lambda x: 'false'),
+    ('mEmptyArr', 'x', ['return arrayNew()'], lambda x: []),
+    ('mArrZero', 'x', ['return arrayNew(0)'], lambda x: [0.0]),
+    ('mEmptyObj', 'x', ['return objectNew()'], lambda x: {}),
+    ('mObj', 'x', ["return objectNew('a', null)"], lambda x: {'a': None}),
+    ('mDate', 'x', ['return datetimeNew(2020, 1, 1)'], lambda x: DT2020),
+    ('mRegex', 'x', ["return regexNew('a')"], lambda x: REGEXES[0]),
+    ('mWrapArr', 'x', ['return arrayNew(x)'], lambda x: [x]),
+    ('mWrapObj', 'x', ["return objectNew('v', x)"], lambda x: {'v': x}),
+    ('mGetA', 'x', ["return objectGet(x, 'a')"], lambda x: x['a'] if isinstance(x, dict) and 'a' in x else None),
+    ('mGetADefault', 'x', ["return objectGet(x, 'a', objectNew())"], lambda x: x['a'] if isinstance(x, dict) and 'a' in x else {}),
+    ('mKeys', 'x', ['return objectKeys(x)'], lambda x: list(x) if isinstance(x, dict) else None),
+    ('mObjCopy', 'x', ['return objectCopy(x)'], lambda x: dict(x) if isinstance(x, dict) else None),
+    ('mArrCopy', 'x', ['return arrayCopy(x)'], lambda x: list(x) if isinstance(x, list) else None),
+    ('mArrLen', 'x', ['return arrayLength(x)'], lambda x: float(len(x)) if isinstance(x, list) else 0.0),
+    ('mStrLen', 'x', ['return stringLength(x)'], lambda x: float(len(x)) if isinstance(x, str) else 0.0),
+    ('mIsStr', 'x', ["return systemType(x) == 'string'"], lambda x: isinstance(x, str)),
+    ('mIsObj', 'x', ["return systemType(x) == 'object'"], lambda x: isinstance(x, dict)),
+    ('mType', 'x', ['return systemType(x)'], lambda x: 'type-name'),
+    ('mGt1', 'x', ["return systemType(x) == 'number' && x > 1"], lambda x: _is_num(x) and x > 1),
+    ('mIfObjArr', 'x', ['return if(x, objectNew(), arrayNew())'], lambda x: {} if _truthy(x) else []),
+    ('mBranch', 'x', ['if x:', '    return objectNew()', 'endif', "return ''"], lambda x: {} if _truthy(x) else ''),
+    ('mNoParam', '', ['return objectNew()'], lambda x: {}),                  # surplus call-back argument
+    ('mSecond', 'x, y', ['return y'], lambda x: None),                       # missing call-back argument
+    ('mSecondOr', 'x, y', ['return y || objectCopy(x)'], lambda x: dict(x) if isinstance(x, dict) else None),
+    ('mRest', 'x...', ['return x'], lambda x: [x]),                          # last-argument-array call-backs
+    ('mRestTail', 'x, y...', ['return y'], lambda x: []),
+]
+MATCHER_PRELUDE = '\n'.join(f'function {name}({params}):\n' + '\n'.join('    ' + ln for ln in body) + '\nendfunction'
+                            for name, params, body, _ in MATCHERS)
+HOST_ONLY = [
+    ('hIntZero', lambda x: 0), ('hIntOne', lambda x: 1), ('hNegZero', lambda x: -0.0), ('hFn', lambda x: _fn0),
+    ('hRegex', lambda x: REGEXES[1]), ('hDate', lambda x: EPOCH), ('hIsNone', lambda x: x is None),
+]
+FN_REFS = [lambda x: None, lambda x: None] + [m[3] for m in MATCHERS] + [m[3] for m in MATCHERS] + [h[1] for h in HOST_ONLY]
+FN_NAMES = ['fn0', 'fn1'] + [m[0] for m in MATCHERS] + ['host:' + m[0] for m in MATCHERS] + ['host:' + h[0] for h in HOST_ONLY]
+NFN = len(FN_REFS)
+FN_SCRIPT0 = 2                       # first script-defined function
+FN_HOST0 = 2 + len(MATCHERS)         # first host twin
+
+
+def _host_fn(ref):
+    def host(args, unused_options):
+        return ref(args[0] if args else None)
+    return host
+
+
+_FN_CACHE = {}
+
+
+def fns():
+    """The function values, index = protocol id (built once per loaded implementation: the script functions are the objects the
+    implementation's runtime creates for `function` statements)."""
+    mods = fw.impl()
+    if _FN_CACHE.get('mods') is not mods:
+        glob = {}
+        mods['runtime'].execute_script(mods['parser'].parse_script(MATCHER_PRELUDE), {'globals': glob, 'maxStatements': 10000})
+        table = [_fn0, _fn1] + [glob[m[0]] for m in MATCHERS] + [_host_fn(m[3]) for m in MATCHERS] + [_host_fn(h[1]) for h in HOST_ONLY]
+        _FN_CACHE.update(mods=mods, fns=table, index={id(f): i for i, f in enumerate(table)})
+    return _FN_CACHE['fns']
+
+
+def fn_index(f):
+    fns()
+    return _FN_CACHE['index'].get(id(f), 99)
+
+
+def fn_id(name):
+    return FN_NAMES.index(name)
 
 
 # ---------------------------------------------------------------------------------------------------------------------
@@ -104,7 +223,7 @@ def scalar_proto(x):
     if isinstance(x, REGEX_TYPE):
         return {'re': next((i for i, r in enumerate(REGEXES) if r is x), 99)}
     if callable(x):
-        return {'f': next((i for i, f in enumerate(FNS) if f is x), 99)}
+        return {'f': fn_index(x)}
     return {'unknown': type(x).__name__}
 
 
@@ -126,7 +245,7 @@ def build_pool(spec):
         if 'o' in p:
             return cells[p['o']]
         if 'f' in p:
-            return FNS[p['f']]
+            return fns()[p['f']]
         if 're' in p:
             return REGEXES[p['re']]
         raise ValueError(p)
@@ -247,6 +366,31 @@ def rtype(x):
     return 'function'
 
 
+def ref_truthy(x):
+    """The language's truth rules: only null, false, 0, '' and [] are false."""
+    t = rtype(x)
+    if t == 'null':
+        return False
+    if t == 'boolean':
+        return x
+    if t == 'number':
+        return x != 0
+    if t in ('string', 'array'):
+        return len(x) > 0
+    return True
+
+
+def match_pred(v):
+    """arrayIndexOf / arrayLastIndexOf: 'the value to find in the array, or a match function, f(value) -> bool' - the returned
+    value is a value of the language, read as a boolean the way every other construct of the language reads it."""
+    if rtype(v) == 'function':
+        i = fn_index(v)
+        if i >= NFN:
+            raise Skip()
+        return lambda el: ref_truthy(FN_REFS[i](el))
+    return lambda el: ref_equal(el, v)
+
+
 def ref_equal(a, b):
     """Equality as the comparison of the language defines it (same type and equal, containers structurally)."""
     ta = rtype(a)
@@ -316,10 +460,9 @@ def r_array_index_of(args):
     v = None if v is MISSING else v
     i = 0 if i is MISSING else i
     need(is_index(i) and i < len(a), -1)
-    if rtype(v) == 'function':
-        raise Skip()
+    pred = match_pred(v)
     for k in range(int(i), len(a)):
-        if ref_equal(a[k], v):
+        if pred(a[k]):
             return k
     return -1
 
@@ -332,10 +475,9 @@ def r_array_last_index_of(args):
         i = len(a) - 1
     else:
         need(is_index(i) and i < len(a), -1)
-    if rtype(v) == 'function':
-        raise Skip()
+    pred = match_pred(v)
     for k in range(int(i), -1, -1):
-        if ref_equal(a[k], v):
+        if pred(a[k]):
             return k
     return -1
 
@@ -719,7 +861,7 @@ def run_impl(spec):
     error = None
     try:
         impl['runtime'].execute_script(impl['parser'].parse_script(text),
-                                       {'globals': glob, 'maxStatements': 10 * len(spec['calls']) + 100})
+                                       {'globals': glob, 'maxStatements': 400 * len(spec['calls']) + 1000})   # call-backs count too
     except Exception as exc:  # pylint: disable=broad-except
         error = f'{type(exc).__name__}: {exc}'
     return {'initial': initial, 'steps': steps, 'error': error, 'script': text, 'keep': keep}
@@ -863,6 +1005,7 @@ def rand_pool(rng):
             env.append({'a' if 'arr' in c else 'o': r})
     env += [{'s': rand_string(rng)}, {'s': rand_string(rng)}, {'n': [rng.randint(0, 4), 1]}, None, True,
             {'dt': rng.choice(DTS)}, {'f': rng.randrange(2)}, {'re': rng.randrange(2)}]
+    env += [{'f': rng.randrange(NFN)} for _ in range(rng.choice([0, 1, 2, 3]))]      # call-backs: script-defined and host functions
     rng.shuffle(env)
     return {'heap': heap, 'env': env}
 
@@ -977,7 +1120,9 @@ class Gen:
             elif base == 'N':
                 args.append({'n': [rng.choice([0, 1, 2, 3, 3, -1]), 1]} if rng.random() < 0.9 else {'n': [3, 2]})
             elif base == 'V':
-                if fn in ('arrayIndexOf', 'arrayLastIndexOf') and isinstance(first, list) and first and rng.random() < 0.7:
+                if fn in ('arrayIndexOf', 'arrayLastIndexOf') and rng.random() < 0.3 and self.vars_of(callable):
+                    args.append(self.pick_var(callable))             # the match-function form
+                elif fn in ('arrayIndexOf', 'arrayLastIndexOf') and isinstance(first, list) and first and rng.random() < 0.7:
                     el = rng.choice(first)
                     if isinstance(el, (list, dict)) or rtype(el) in ('function', 'regex', 'datetime'):
                         v = self.pick_var(lambda x: x is el)
@@ -1032,9 +1177,9 @@ def gen_history(rng, maxlen=30, p_bad=0.08):
 
 TYPE_SAMPLES = [('null', None), ('boolean', True), ('number', {'n': [1, 1]}), ('string', {'s': 'a'}), ('datetime', {'var': 4}),
                 ('array', {'var': 0}), ('object', {'var': 1}), ('function', {'var': 5}), ('regex', {'var': 6}),
-                ('fraction', {'n': [1, 2]}), ('negative', {'n': [-1, 1]})]
+                ('fraction', {'n': [1, 2]}), ('negative', {'n': [-1, 1]}), ('script-function', {'var': 8})]
 ARGS_POOL = {'heap': [{'arr': [{'n': [1, 1]}, {'s': 'x'}, None]}, {'obj': [['a', {'n': [1, 1]}], ['b', {'a': 0}]]}, {'arr': []}, {'obj': []}],
-             'env': [{'a': 0}, {'o': 1}, {'a': 2}, {'o': 3}, {'dt': 0}, {'f': 0}, {'re': 0}, {'s': 'abcabc'}]}
+             'env': [{'a': 0}, {'o': 1}, {'a': 2}, {'o': 3}, {'dt': 0}, {'f': 0}, {'re': 0}, {'s': 'abcabc'}, {'f': FN_NAMES.index('mWrapObj')}]}
 VALID = {'A': {'var': 0}, 'O': {'var': 1}, 'S': {'s': 'abcabc'}, 'K': {'s': 'a'}, 'I': {'n': [1, 1]}, 'N': {'n': [2, 1]}, 'V': {'s': 'x'},
          'C': {'n': [97, 1]}}
 
@@ -1073,7 +1218,11 @@ def load_corpus():
             for ln in fh:
                 ln = ln.strip()
                 if ln and not ln.startswith('#'):
-                    out.append(json.loads(ln))
+                    spec = json.loads(ln)
+                    for v in spec['env']:      # function values may be written by name: {"f": "mGetA"} / {"f": "host:mGetA"}
+                        if isinstance(v, dict) and isinstance(v.get('f'), str):
+                            v['f'] = fn_id(v['f'])
+                    out.append(spec)
     return out
 
 
@@ -1109,7 +1258,8 @@ def run_batch(ctx, stream, st, specs, tags_of):
 
 def stream_lib(ctx):
     st = ctx.stream('lib', 'histories of <=30 library calls (array*/object*/string*/regexEscape/urlEncode*) issued from a script on a pool of '
-                           'aliased, nested containers; indices -2..len+2 as float literals, ~8% of the arguments wrong-typed, ~8% of the calls with a missing / surplus argument; '
+                           'aliased, nested containers (plus up to 3 script-defined / host call-back functions, used as match function in ~30% of the '
+                           'arrayIndexOf / arrayLastIndexOf calls); indices -2..len+2 as float literals, ~8% of the arguments wrong-typed, ~8% of the calls with a missing / surplus argument; '
                            'after every call: result, complete state with aliasing, frame, freshness against reference and model; '
                            'non-trivial = at least 3 calls of which one mutates a container that has an alias')
     rng = ctx.rng('lib')
@@ -1216,7 +1366,7 @@ def stream_lib_through_machine(ctx, answered):
 
 def stream_args(ctx):
     st = ctx.stream('args', 'every function x every parameter position x every value type (null, boolean, number, string, datetime, array, '
-                            'object, function, regex, fractional, negative) + missing + surplus arguments on a fixed pool: documented failure '
+                            'object, host function, script-defined function, regex, fractional, negative) + missing + surplus arguments on a fixed pool: documented failure '
                             'value, nothing changes, no exception escapes; non-trivial = the call fails')
     specs = []
     labels = []
@@ -1333,9 +1483,320 @@ def stream_index(ctx):
     st.exhaustive = True
 
 
+# ---------------------------------------------------------------------------------------------------------------------
+# Call-backs: the match-function form of arrayIndexOf / arrayLastIndexOf over every class of returned value
+# ---------------------------------------------------------------------------------------------------------------------
+
+# elements, one (or more) per value class and per class of member "a" (what mGetA / mKeys / mObjCopy ... return for them)
+CB_HEAP = [{'arr': []}, {'arr': [{'n': [0, 1]}]}, {'obj': []}, {'obj': [['a', None]]}, {'obj': [['a', {'o': 2}]]}, {'obj': [['a', {'a': 0}]]},
+           {'obj': [['a', {'n': [0, 1]}]]}, {'obj': [['a', {'s': ''}]]}, {'obj': [['a', {'n': [1, 1]}]]}, {'obj': [['a', {'s': 'x'}]]},
+           {'obj': [['a', {'a': 1}]]}, {'obj': [['a', {'o': 8}]]}, {'obj': [['b', {'n': [1, 1]}]]}, {'obj': [['a', False]]},
+           {'arr': [{'a': 0}]}, {'obj': [['a', {'o': 12}], ['', None]]}]
+CB_ELEMS = [None, False, True, {'n': [0, 1]}, {'n': [1, 1]}, {'n': [2, 1]}, {'n': [-1, 1]}, {'n': [1, 2]}, {'s': ''}, {'s': 'a'}, {'s': ' '},
+            {'s': '0'}, {'dt': 0}, {'f': 0}, {'re': 0}] + [{'a' if 'arr' in c else 'o': r} for r, c in enumerate(CB_HEAP)]
+CB_FNS = ('arrayIndexOf', 'arrayLastIndexOf')
+
+
+def cb_spec(elems, fn_ids):
+    """pool: the array under test (two variables) and a copy of it, the given function values; -> (spec, index of the first function variable)"""
+    n = len(CB_HEAP)
+    spec = {'heap': copy.deepcopy(CB_HEAP) + [{'arr': list(elems)}, {'arr': list(elems)}],
+            'env': [{'a': n}, {'a': n}, {'a': n + 1}] + [{'f': i} for i in fn_ids], 'calls': []}
+    return spec, 3
+
+
+def callback_specs(rng, nrandom):
+    # 1. every function x every element class as the only element (the decisive one) x both searches, without / with a start index
+    #    (histories of 8 functions each: the snapshot after every call is linear in the number of variables)
+    for e in CB_ELEMS:
+        for lo in range(0, NFN, 8):
+            ids = list(range(lo, min(lo + 8, NFN)))
+            spec, f0 = cb_spec([e], ids)
+            for j, i in enumerate(ids):
+                for fn in CB_FNS:
+                    spec['calls'].append({'fn': fn, 'args': [{'var': 0}, {'var': f0 + j}]})
+                spec['calls'].append({'fn': CB_FNS[i % 2], 'args': [{'var': 1}, {'var': f0 + j}, {'n': [0, 1]}]})
+            spec['calls'] += [{'fn': 'arrayLength', 'args': [{'var': 1}]}, {'fn': 'arrayLength', 'args': [{'var': 2}]}]
+            yield 'single', spec
+    # 2. arrays of 2..6 elements: first / last match, start index in and out of range, null (= from the end), fractional
+    for _ in range(nrandom):
+        elems = [rng.choice(CB_ELEMS) for _ in range(rng.choice([2, 2, 3, 3, 4, 5, 6]))]
+        ids = [rng.randrange(NFN) for _ in range(4)]
+        spec, f0 = cb_spec(elems, ids)
+        for _ in range(12):
+            args = [{'var': rng.randrange(2)}, {'var': f0 + rng.randrange(len(ids))}]
+            r = rng.random()
+            if r < 0.45:
+                args.append({'n': [rng.randrange(len(elems)), 1]})
+            elif r < 0.55:
+                args.append(rng.choice([None, {'n': [len(elems), 1]}, {'n': [-1, 1]}, {'n': [1, 2]}, {'s': '0'}]))
+            spec['calls'].append({'fn': rng.choice(CB_FNS), 'args': args})
+        yield 'random', spec
+
+
+def stream_callbacks(ctx):
+    st = ctx.stream('callbacks',
+                    f'match-function form of arrayIndexOf / arrayLastIndexOf: {len(MATCHERS)} script-defined functions (constant and '
+                    f'element-dependent results of every value class: null, booleans, 0 / non-zero / fractional numbers, empty / non-empty '
+                    f'strings, arrays, objects, datetime, regex; 0-, 1-, 2-parameter and rest-parameter functions), their host twins and '
+                    f'{len(HOST_ONLY)} host-only results (host ints, -0, function values) x every element class as the decisive element '
+                    f'(exhaustive) + random arrays of 2..6 elements with start indices; result = first / last index whose returned value is '
+                    f'true by the language\'s rules, nothing changes; non-trivial = all')
+    rng = ctx.rng('callbacks')
+    kinds = []
+    specs = []
+    for kind, spec in callback_specs(rng, ctx.scale(400, 6000)):
+        kinds.append(kind)
+        specs.append(spec)
+    it = iter(kinds)
+
+    def tags_of(spec, info):
+        tags = [next(it)]
+        for c in spec['calls']:
+            if len(c['args']) > 1 and isinstance(c['args'][1], dict) and 'var' in c['args'][1]:
+                f = spec['env'][c['args'][1]['var']]
+                if isinstance(f, dict) and 'f' in f:
+                    tags.append('cb:' + FN_NAMES[f['f']])
+        return True, tags
+    for i in range(0, len(specs), 400):
+        run_batch(ctx, 'callbacks', st, specs[i:i + 400], tags_of)
+
+
+# ---------------------------------------------------------------------------------------------------------------------
+# arraySort: the third call-back taking function (outside the Lean model - an oracle on the implementation only).
+# The ORDER itself is the subject of C11; here: the sequence contract of a sort - in place, the passed array is returned,
+# a permutation (by identity) of its elements, adjacent elements in order by the compare function (a script-defined or host
+# call-back returning negative / zero / positive numbers, fractional ones included) or, without one, by the language's comparison;
+# no element is touched; a failing call (not an array, compare function of a wrong type, surplus argument) returns null and
+# leaves the order alone.  Stability is NOT demanded (the contract does not state it): ties may come out in any order.
+# ---------------------------------------------------------------------------------------------------------------------
+
+def ref_compare(a, b):
+    """The language's comparison: null first, same types by value (arrays / sorted key-value lists lexicographically),
+    different types by type name, functions / regexes of the same type equal."""
+    if a is None or b is None:
+        return (a is not None) - (b is not None)
+    ta, tb = rtype(a), rtype(b)
+    if ta != tb:
+        return (ta > tb) - (ta < tb)
+    if ta in ('string', 'boolean', 'number', 'datetime'):
+        return (a > b) - (a < b)
+    if ta == 'array':
+        for x, y in zip(a, b):
+            c = ref_compare(x, y)
+            if c:
+                return c
+        return (len(a) > len(b)) - (len(a) < len(b))
+    if ta == 'object':
+        ka, kb = sorted(a), sorted(b)
+        for x, y in zip(ka, kb):
+            c = ref_compare(x, y) or ref_compare(a[x], b[y])
+            if c:
+                return c
+        return (len(ka) > len(kb)) - (len(ka) < len(kb))
+    return 0
+
+
+def _k(x):
+    return x['k'] if isinstance(x, dict) and is_num(x.get('k')) else 0.0
+
+
+# (name, body lines of `function name(a, b)`, reference (a, b) -> number, domain of the elements)
+COMPARATORS = [
+    ('cAsc', ['return a - b'], lambda a, b: a - b, 'num'),
+    ('cDesc', ['return b - a'], lambda a, b: b - a, 'num'),
+    ('cQuarter', ['return (a - b) / 4'], lambda a, b: (a - b) / 4, 'num'),            # results strictly between -1 and 1
+    ('cScaled', ['return (a - b) * 1000'], lambda a, b: (a - b) * 1000, 'num'),
+    ('cSign', ['if a < b:', '    return 0 - 1', 'endif', 'return if(a > b, 1, 0)'], lambda a, b: (a > b) - (a < b), 'num'),
+    ('cLen', ['return stringLength(a) - stringLength(b)'], lambda a, b: len(a) - len(b), 'str'),
+    ('cLenHalf', ['return (stringLength(b) - stringLength(a)) / 2'], lambda a, b: (len(b) - len(a)) / 2, 'str'),
+    ('cKey', ["return objectGet(a, 'k') - objectGet(b, 'k')"], lambda a, b: _k(a) - _k(b), 'rec'),
+    ('cKeyTenth', ["return (objectGet(b, 'k') - objectGet(a, 'k')) / 8"], lambda a, b: (_k(b) - _k(a)) / 8, 'rec'),
+    ('cSys', ['return systemCompare(a, b)'], ref_compare, 'any'),
+    ('cSysRev', ['return systemCompare(b, a)'], lambda a, b: ref_compare(b, a), 'any'),
+    ('cSysHalf', ['return systemCompare(a, b) / 2'], lambda a, b: ref_compare(a, b) / 2, 'any'),
+    ('cEqual', ['return 0'], lambda a, b: 0, 'any'),
+]
+COMPARATOR_PRELUDE = '\n'.join(f'function {name}(a, b):\n' + '\n'.join('    ' + ln for ln in body) + '\nendfunction'
+                               for name, body, _, _ in COMPARATORS)
+COMPARATOR_REF = {c[0]: c[2] for c in COMPARATORS}
+_CMP_CACHE = {}
+
+
+def comparator(name, host):
+    mods = fw.impl()
+    if _CMP_CACHE.get('mods') is not mods:
+        glob = {}
+        mods['runtime'].execute_script(mods['parser'].parse_script(COMPARATOR_PRELUDE), {'globals': glob, 'maxStatements': 10000})
+        _CMP_CACHE.update(mods=mods, script={c[0]: glob[c[0]] for c in COMPARATORS})
+    if host:
+        ref = COMPARATOR_REF[name]
+        return lambda args, unused_options: ref(args[0], args[1])
+    return _CMP_CACHE['script'][name]
+
+
+def sort_failures(case):
+    """case = {'heap': cells, 'arr': protocol value of the first argument, 'cmp': None (no second argument) | 'null' | comparator name |
+    'host:' + name | {'wrong': protocol scalar}, 'surplus': bool}  ->  [(oracle, expected, actual)]"""
+    impl = fw.impl()
+    _, env, val = build_pool({'heap': case['heap'], 'env': [case['arr']]})
+    arr = env[0]
+    glob = {'a': arr, 'alias': arr}
+    cmp_ = case.get('cmp')
+    ref = None
+    call = 'arraySort(a'
+    if cmp_ is not None:
+        call += ', f'
+        if cmp_ == 'null':
+            glob['f'] = None
+        elif isinstance(cmp_, dict):
+            glob['f'] = val(cmp_['wrong'])
+        else:
+            name = cmp_[5:] if cmp_.startswith('host:') else cmp_
+            glob['f'] = comparator(name, cmp_.startswith('host:'))
+            ref = COMPARATOR_REF[name]
+    if case.get('surplus'):
+        call += ', null' if cmp_ is not None else ', null, null'
+    fails = not isinstance(arr, list) or isinstance(cmp_, dict) or bool(case.get('surplus'))
+    before = list(arr) if isinstance(arr, list) else []
+    contents = [canon_state([e]) for e in before]
+    nelem = len(before)
+    try:
+        impl['runtime'].execute_script(impl['parser'].parse_script(f'r = {call})\nn = arrayLength(alias)'),
+                                       {'globals': glob, 'maxStatements': 100 + 50 * nelem * nelem})
+    except Exception as exc:  # pylint: disable=broad-except
+        return [('no-exception-escapes', 'the call evaluates to a value', f'{type(exc).__name__}: {exc}')]
+    r = glob.get('r')
+    bad = []
+    if glob.get('a') is not arr or glob.get('alias') is not arr:
+        bad.append(('identity-kept', 'variables keep their containers', 'a variable was rebound'))
+    if isinstance(arr, list):
+        if [canon_state([e]) for e in before] != contents:
+            bad.append(('frame', 'no element of the array is touched', 'an element changed'))
+        if sorted(id(e) if isinstance(e, (list, dict)) else -1 for e in arr) != sorted(id(e) if isinstance(e, (list, dict)) else -1 for e in before) \
+           or sorted(json.dumps(scalar_proto(e), sort_keys=True) for e in arr if not isinstance(e, (list, dict))) != \
+              sorted(json.dumps(scalar_proto(e), sort_keys=True) for e in before if not isinstance(e, (list, dict))) \
+           or glob.get('n') != len(before):
+            bad.append(('sort-is-a-permutation', canon_state([before]), canon_state([arr])))
+    if fails:
+        if r is not None:
+            bad.append(('failure-value', None, canon_state([r])))
+        if len(arr if isinstance(arr, list) else []) != nelem or any(x is not y for x, y in zip(arr if isinstance(arr, list) else [], before)):
+            bad.append(('failure-leaves-arguments-unchanged', canon_state([before]), canon_state([arr])))
+    elif not bad:
+        if r is not arr:
+            bad.append(('sort-returns-the-passed-array', 'the array passed (sorted in place, seen through every alias)', canon_state([arr, r])))
+        order = ref or ref_compare
+        for i in range(len(arr) - 1):
+            if order(arr[i], arr[i + 1]) > 0:
+                bad.append(('sort-orders-adjacent-elements', {'position': i, 'compare(r[i], r[i+1])': '<= 0'},
+                            {'result': canon_state([arr]), 'compare(r[i], r[i+1])': str(order(arr[i], arr[i + 1]))}))
+                break
+    return bad
+
+
+SORT_NUMS = [{'n': [i, 1]} for i in range(-3, 10)] + [{'n': [i, 2]} for i in (-3, -1, 1, 3, 5)] + [{'n': [i, 4]} for i in (-1, 1, 3, 5, 7, 9)] + \
+            [{'n': [1, 8]}, {'n': [3, 8]}, {'n': [1000001, 1000]}]
+SORT_TYPES = ['null', 'boolean', 'number', 'string', 'datetime', 'array', 'object', 'function', 'regex']
+SORT_ARRAYS = [[], [{'n': [0, 1]}], [{'n': [0, 1]}, {'n': [1, 1]}], [{'s': 'a'}], [None], [True], [{'n': [1, 2]}]]
+SORT_OBJECTS = [[], [['a', {'n': [1, 1]}]], [['a', {'n': [2, 1]}]], [['b', {'n': [0, 1]}]], [['b', {'n': [0, 1]}], ['a', {'n': [1, 1]}]], [['a', None]]]
+
+
+def sort_cases(rng, n):
+    def elem(t, heap):
+        if t == 'null':
+            return None
+        if t == 'boolean':
+            return rng.random() < 0.5
+        if t == 'number':
+            return rng.choice(SORT_NUMS)
+        if t == 'string':
+            return {'s': rand_string(rng, WIDE if rng.random() < 0.3 else ALPHABET)}
+        if t == 'datetime':
+            return {'dt': rng.choice(DTS + [1, 86400000, -1000])}
+        if t == 'array':
+            heap.append({'arr': list(rng.choice(SORT_ARRAYS))})
+            return {'a': len(heap) - 1}
+        if t == 'object':
+            heap.append({'obj': [list(kv) for kv in rng.choice(SORT_OBJECTS)]})
+            return {'o': len(heap) - 1}
+        return {'f': rng.randrange(2)} if t == 'function' else {'re': rng.randrange(2)}
+
+    def finish(heap, elems, cmp_, **extra):
+        heap.append({'arr': elems})
+        case = {'heap': heap, 'arr': {'a': len(heap) - 1}, 'cmp': cmp_}
+        case.update(extra)
+        return case
+    by_domain = {d: [c[0] for c in COMPARATORS if c[3] == d] for d in ('num', 'str', 'rec', 'any')}
+    # every pair of value types (the same type twice included) in one array, default order and the same order through a call-back
+    for i, t1 in enumerate(SORT_TYPES):
+        for t2 in SORT_TYPES[i:]:
+            for length in (2, 3, 5, 8):
+                for cmp_ in (None, 'cSys'):
+                    heap = []
+                    elems = [elem(t1, heap), elem(t2, heap)] + [elem(rng.choice([t1, t2]), heap) for _ in range(length - 2)]
+                    rng.shuffle(elems)
+                    yield 'type-pair', finish(heap, elems, cmp_)
+    for _ in range(n):
+        heap = []
+        r = rng.random()
+        length = rng.choice([0, 1, 2, 2, 3, 3, 4, 5, 6, 8, 12])
+        if r < 0.2:
+            domain, elems = 'num', [rng.choice(SORT_NUMS) for _ in range(length)]
+        elif r < 0.3:
+            domain, elems = 'str', [elem('string', heap) for _ in range(length)]
+        elif r < 0.42:
+            domain, elems = 'rec', []
+            for i in range(length):
+                heap.append({'obj': [['k', rng.choice(SORT_NUMS)], ['id', {'n': [i, 1]}]]})
+                elems.append({'o': len(heap) - 1})
+        else:
+            domain = 'any'
+            types = rng.sample(SORT_TYPES, rng.choice([1, 2, 2, 2, 3, 3, 4, len(SORT_TYPES)]))
+            elems = [elem(rng.choice(types), heap) for _ in range(length)]
+        q = rng.random()
+        if q < 0.3:
+            cmp_ = rng.choice([None, None, 'null'])
+            if domain == 'rec':
+                cmp_ = rng.choice(by_domain['rec'])
+        else:
+            cmp_ = rng.choice(by_domain[domain] + (by_domain['any'] if rng.random() < 0.3 else []))
+            if rng.random() < 0.3:
+                cmp_ = 'host:' + cmp_
+        q = rng.random()
+        if q < 0.04:
+            yield 'surplus', finish(heap, elems, cmp_, surplus=True)
+        elif q < 0.10:
+            yield 'wrong-compare', finish(heap, elems, {'wrong': rng.choice([False, True, {'n': [0, 1]}, {'n': [1, 1]}, {'s': ''}, {'s': 'cAsc'}, {'dt': 0}, {'re': 0}])})
+        elif q < 0.13:
+            yield 'not-an-array', {'heap': heap, 'arr': rng.choice([None, True, {'n': [1, 1]}, {'s': 'ba'}, {'dt': 0}, {'f': 0}, {'re': 0}]), 'cmp': cmp_}
+        else:
+            yield domain, finish(heap, elems, cmp_)
+
+
+def stream_sort(ctx):
+    st = ctx.stream('sort', 'arraySort (implementation-only oracle, the function is outside the Lean model): arrays of 0..12 elements - numbers '
+                            '(integral, halves, quarters, eighths), strings, records {k, id}, every pair of value types and mixtures of 1..9 of them with nested arrays / '
+                            f'objects - without compare function / with null / with one of {len(COMPARATORS)} script-defined compare functions or '
+                            'their host twins (results negative / 0 / positive, fractional between -1 and 1, scaled), wrong-typed compare '
+                            'function, surplus argument, non-array: returns the passed array, permutation by identity, adjacent elements in '
+                            'order by the reference comparison, elements untouched, failure = null and order unchanged; '
+                            'non-trivial = at least 2 elements')
+    rng = ctx.rng('sort')
+    for kind, case in sort_cases(rng, ctx.scale(2500, 40000)):
+        cell = case['heap'][case['arr']['a']] if isinstance(case['arr'], dict) and 'a' in case['arr'] else {'arr': []}
+        cmp_ = case.get('cmp')
+        st.case(case, nontrivial=len(cell['arr']) >= 2,
+                tags=[kind, 'cmp:' + ('none' if cmp_ is None else 'wrong' if isinstance(cmp_, dict) else cmp_), f'len{min(len(cell["arr"]), 8)}'])
+        for oracle, want, got in sort_failures(case):
+            ctx.witness(oracle, {'sort': case}, want, got)
+
+
 def streams(ctx):
     stream_args(ctx)
     stream_index(ctx)
+    stream_callbacks(ctx)
+    stream_sort(ctx)
     text_oracles(ctx)
     answered = stream_lib(ctx)
     stream_lib_through_machine(ctx, answered)
@@ -1358,11 +1819,17 @@ def search(ctx):
         spec = copy.deepcopy(ARGS_POOL)
         spec['calls'] = [{'fn': fn, 'args': args}]
         specs.append(spec)
+    specs += [spec for _, spec in callback_specs(rng, ctx.scale(1000, 10000))]
     specs += [gen_history(rng, maxlen=12, p_bad=0.3) for _ in range(ctx.scale(4000, 40000))]
     for spec in specs:
         wit, _, info = check_history(spec)
         for oracle, k, want, got in wit:
             ctx.witness(oracle, {'spec': spec, 'step': k, 'script': info['script']}, want, got)
+        if ctx.witnesses:
+            return
+    for _, case in sort_cases(rng, ctx.scale(5000, 50000)):
+        for oracle, want, got in sort_failures(case):
+            ctx.witness(oracle, {'sort': case}, want, got)
         if ctx.witnesses:
             return
     impl = fw.impl()
@@ -1378,6 +1845,8 @@ def search(ctx):
 
 def replay(witness):
     inp = witness['input']
+    if 'sort' in inp:
+        return bool(sort_failures(inp['sort']))
     if 'spec' in inp:
         wit, _, _ = check_history(inp['spec'])
         return bool(wit)
@@ -1407,9 +1876,15 @@ LEVEL_TEXT = ('Theorems over a heap model (arrays/objects as shared cells) for A
               'reference operations) describes (machine_history_refines); tied by the lib-through-machine stream (script text executed by '
               'the implementation and by the Lean machine over hostLib).')
 LEVEL_NOTE = ('Trusted: Lean kernel; extract.py; the correspondence harness and its reference Ref. Modelled not verified: CPython str/list/dict '
-              'primitives, re.escape, urllib.parse.quote (tables re-extracted). Unmodelled (skipped, counted in evidence): match-function '
-              'form of arrayIndexOf/arrayLastIndexOf, arrayJoin over non-integral numbers/datetimes/containers, stringLower/Upper on '
-              'non-ASCII, surrogate code points, cyclic containers (F18), arraySort, stringNew. For string functions whose body already is '
+              'primitives, re.escape, urllib.parse.quote (tables re-extracted). The match-function form of arrayIndexOf/arrayLastIndexOf is '
+              'outside the Lean model (Eff.unmodelled: the model takes the result from the implementation and still checks that the heap is '
+              'untouched); its contract - first / last index whose call-back result is true by the language\'s truth rules, for script-defined '
+              'and host call-backs returning every value class - is correspondence-strength: Python reference (match_pred / ref_truthy) in the '
+              'callbacks, lib and args streams. Unmodelled (skipped, counted in evidence): arrayJoin over non-integral numbers/datetimes/containers, stringLower/Upper on '
+              'non-ASCII, surrogate code points, cyclic containers (F18), stringNew. arraySort is outside the Lean model too (its order is the subject '
+              'of C11); the sort stream checks it on the implementation only: the passed array is returned, permuted in place, adjacent '
+              'elements in order by the compare call-back (script-defined / host, fractional results) or the reference comparison, '
+              'failure = null and nothing moves; stability is not demanded. For string functions whose body already is '
               'a plain code-point operation (startsWith, endsWith, split, replace, trim, lower/upper) the reference IS the modelled '
               'primitive: their contract is correspondence-strength (lib stream + Python reference), not a theorem. Machine level: the '
               'bridge theorems assume the call is one Lib models (decidable predicate Modelled / AllModelled); an unmodelled call falls back to '
